@@ -198,8 +198,10 @@ func (ck *Checker) runReplay(bin, dir, file string, rq replayReq) (string, strin
 	switch kind {
 	case "assert":
 		label := strings.TrimPrefix(rq.v.Key, "assert|")
-		if kv["result"] == "assert" && kv["label"] == label {
-			return "confirmed", line
+		for _, l := range strings.Split(kv["label"], ",") {
+			if l == label {
+				return "confirmed", line
+			}
 		}
 	case "alloc":
 		if alloc >= int64(rq.st.in.AllocLimit) || (kv["result"] == "panic" && (strings.Contains(kv["msg"], "makeslice") || strings.Contains(kv["msg"], "out of memory"))) {
